@@ -71,6 +71,7 @@ func main() {
 type step struct {
 	delay time.Duration
 	data  []byte
+	other bool // sent from a second socket of the responder (same address, another source port)
 }
 
 type udpResponder struct {
@@ -105,6 +106,13 @@ func newUDPResponder(ip string, script func(req []byte) []step) *udpResponder {
 					for _, s := range steps {
 						if d := s.delay - time.Since(start); d > 0 {
 							time.Sleep(d)
+						}
+						if s.other {
+							if alt, err := net.ListenUDP("udp4", &net.UDPAddr{IP: conn.LocalAddr().(*net.UDPAddr).IP, Port: 0}); err == nil {
+								alt.WriteToUDP(s.data, addr)
+								alt.Close()
+							}
+							continue
 						}
 						conn.WriteToUDP(s.data, addr)
 					}
@@ -211,6 +219,7 @@ func (r *tcpResponder) received() int {
 // getCard: GetCardByID under a watchdog. A call that has not returned after 15 timeouts never will (the
 // property bounds it by one): the case is reported as "hung" instead of blocking the whole stream.
 var errHung = fmt.Errorf("hung: the call did not return within 15 timeouts")
+var errPanic = fmt.Errorf("panic: the call crashed (recovered by the harness)")
 
 func getCard(u uhppote.IUHPPOTE, serial, card uint32) (*types.Card, error) {
 	type res struct {
@@ -219,6 +228,11 @@ func getCard(u uhppote.IUHPPOTE, serial, card uint32) (*types.Card, error) {
 	}
 	ch := make(chan res, 1)
 	go func() {
+		defer func() {
+			if x := recover(); x != nil {
+				ch <- res{nil, errPanic}
+			}
+		}()
 		c, err := u.GetCardByID(serial, card)
 		ch <- res{c, err}
 	}()
@@ -249,7 +263,7 @@ func echo(delay func() time.Duration) func(req []byte) []step {
 		}
 		serial := binary.LittleEndian.Uint32(req[4:8])
 		card := binary.LittleEndian.Uint32(req[8:12])
-		return []step{{delay(), cardReply(serial, card)}}
+		return []step{{delay(), cardReply(serial, card), false}}
 	}
 }
 
